@@ -1,5 +1,15 @@
 /-!
-# Slice store (C16) — table entry type.  The store model itself follows below in this file.
+# Slice store (C16)
+
+A model of the part of Go's memory that slices live in: *backing arrays* (identified by their index in
+the store) and *slice headers* `(arr, off, len, cap)` that view a window of one array.  `make`,
+indexed write, re-slicing and `append` follow the Go specification: `append` writes in place when the
+capacity suffices (this *does* write the backing array beyond the slice's length) and otherwise copies
+into a freshly allocated array.
+
+On top of it a tiny *builder discipline* is defined (`Instr`, `run`): a helper may read anything,
+allocate, and write / append only through slices that point into storage allocated by the helper
+itself.  `Theorems/C16.lean` proves the frame theorem for every disciplined program.
 -/
 namespace GoguVerif.Model.Store
 
@@ -12,5 +22,123 @@ structure EffectEntry where
   aliases : List Nat
   selfAssignOnly : Bool
 deriving DecidableEq, Repr
+
+/-- the store: backing arrays, addressed by position -/
+abbrev Store := List (List Int)
+
+/-- a slice header -/
+structure Slice where
+  arr : Nat
+  off : Nat
+  len : Nat
+  cap : Nat
+deriving DecidableEq, Repr
+
+/-- `make([]int, len, cap)`: a fresh zeroed array; returns the new store and the header -/
+def alloc (σ : Store) (len cap : Nat) : Store × Slice :=
+  (σ ++ [List.replicate (max len cap) 0], { arr := σ.length, off := 0, len := len, cap := max len cap })
+
+/-- write cell `i` of array `a` -/
+def setCell (σ : Store) (a i : Nat) (v : Int) : Store :=
+  σ.modify a (fun arr => arr.set i v)
+
+/-- `s[i] = v` (`none` = index out of range: a Go panic) -/
+def write (σ : Store) (s : Slice) (i : Nat) (v : Int) : Option Store :=
+  if i < s.len then some (setCell σ s.arr (s.off + i) v) else none
+
+/-- `s[i]` -/
+def read (σ : Store) (s : Slice) (i : Nat) : Option Int :=
+  if i < s.len then (σ[s.arr]?).bind (fun arr => arr[s.off + i]?) else none
+
+/-- `s[lo:hi]` (`hi ≤ cap`) -/
+def reslice (s : Slice) (lo hi : Nat) : Option Slice :=
+  if lo ≤ hi ∧ hi ≤ s.cap then some { arr := s.arr, off := s.off + lo, len := hi - lo, cap := s.cap - lo }
+  else none
+
+/-- the elements a slice shows -/
+def elems (σ : Store) (s : Slice) : List Int :=
+  ((σ[s.arr]?).getD []).drop s.off |>.take s.len
+
+/-- `append(s, v)`: in place iff the capacity suffices, else copy into a fresh array of doubled capacity -/
+def append (σ : Store) (s : Slice) (v : Int) : Store × Slice :=
+  if s.len < s.cap then
+    (setCell σ s.arr (s.off + s.len) v, { s with len := s.len + 1 })
+  else
+    let newCap := 2 * s.cap + 1
+    let fresh := elems σ s ++ [v] ++ List.replicate (newCap - s.len - 1) 0
+    (σ ++ [fresh], { arr := σ.length, off := 0, len := s.len + 1, cap := newCap })
+
+/-! ## The builder discipline -/
+
+/-- Instructions of a disciplined helper.  Slices are kept in a register file (`List Slice`); register
+indices that are out of range make the instruction a no-op. -/
+inductive Instr where
+  /-- `r := make([]T, len, cap)` (new register) -/
+  | alloc (len cap : Nat)
+  /-- `r[i] = v` — only through a register that points into storage allocated by the helper -/
+  | write (r i : Nat) (v : Int)
+  /-- `r = append(r, v)` — same restriction -/
+  | append (r : Nat) (v : Int)
+  /-- `r' := r[lo:hi]` of ANY register (arguments included): a view, no write -/
+  | reslice (r lo hi : Nat)
+deriving Repr
+
+structure Machine where
+  σ : Store
+  regs : List Slice
+deriving Repr
+
+/-- `base` = number of arrays that existed before the helper started: registers pointing at arrays
+`< base` are (views of) arguments and may only be read and re-sliced. -/
+def step (base : Nat) (m : Machine) : Instr → Machine
+  | .alloc len cap =>
+    let (σ', s) := alloc m.σ len cap
+    { σ := σ', regs := m.regs ++ [s] }
+  | .write r i v =>
+    match m.regs[r]? with
+    | some s =>
+      if base ≤ s.arr then
+        match write m.σ s i v with
+        | some σ' => { m with σ := σ' }
+        | none => m
+      else m          -- not allowed by the discipline: the instruction is refused
+    | none => m
+  | .append r v =>
+    match m.regs[r]? with
+    | some s =>
+      if base ≤ s.arr then
+        let (σ', s') := append m.σ s v
+        { σ := σ', regs := m.regs.set r s' }
+      else m
+    | none => m
+  | .reslice r lo hi =>
+    match m.regs[r]? with
+    | some s =>
+      match reslice s lo hi with
+      | some s' => { m with regs := m.regs ++ [s'] }
+      | none => m
+    | none => m
+
+def run (base : Nat) (m : Machine) : List Instr → Machine
+  | [] => m
+  | i :: is => run base (step base m i) is
+
+/-- `append(arg, v)` by a helper that does NOT obey the discipline (what `Merge` used to do). -/
+def undisciplinedAppend (m : Machine) (r : Nat) (v : Int) : Machine :=
+  match m.regs[r]? with
+  | some s => let (σ', s') := append m.σ s v; { σ := σ', regs := m.regs.set r s' }
+  | none => m
+
+/-- an in-place helper: a sequence of writes through ONE designated register (`Reverse`, `Reject`,
+`heap.FromSlice`, `heap.Sort` write only `s[i] = …` for `i < len s`) -/
+def runInPlace (m : Machine) (r : Nat) : List (Nat × Int) → Machine
+  | [] => m
+  | (i, v) :: ws =>
+    match m.regs[r]? with
+    | some s =>
+      match write m.σ s i v with
+      | some σ' => runInPlace { m with σ := σ' } r ws
+      | none => runInPlace m r ws
+    | none => m
 
 end GoguVerif.Model.Store
